@@ -24,9 +24,9 @@ meta = {'property': pid, 'slug': slug, 'demo_cmd': democmd, 'ran': []}
 # --- demo in the agent's worktree: patched -> must fail; stashed -> must pass
 rc, o = sh('git diff --stat -- nutype nutype_macros | tail -1', src); meta['diffstat'] = o.strip()
 rc1, o1 = sh(democmd, f'{src}/seed_out/demo'); meta['demo_with_patch'] = {'rc': rc1, 'tail': o1[-600:]}
-sh('git diff -- nutype nutype_macros > /tmp/_seed_patch.diff && git checkout -- nutype nutype_macros', src)
+sh(f'git diff -- nutype nutype_macros > {src}/_seed_patch.diff && git checkout -- nutype nutype_macros', src)
 rc2, o2 = sh(democmd, f'{src}/seed_out/demo'); meta['demo_without_patch'] = {'rc': rc2, 'tail': o2[-600:]}
-sh('git apply /tmp/_seed_patch.diff', src)
+sh(f'git apply {src}/_seed_patch.diff', src)
 meta['ran'].append(f'(in {src}/seed_out/demo) {democmd}  -> with patch rc={rc1}, without patch rc={rc2}')
 # --- fresh worktree of /repo HEAD + patch: pinned suite
 tmp = tempfile.mkdtemp(prefix='seedcheck.', dir='/var/tmp'); wt = tmp + '/wt'
@@ -34,7 +34,7 @@ try:
     subprocess.check_call(['git', '-C', '/repo', 'worktree', 'add', '--detach', '-q', wt, 'HEAD'])
     rc, o = sh(f'git apply {src}/seed_out/patch.diff', wt); meta['patch_applies_to_head'] = rc == 0
     if rc != 0:
-        rc, o = sh(f'git apply /tmp/_seed_patch.diff', wt); meta['patch_applies_to_head'] = rc == 0; meta['used_regenerated_patch'] = True
+        rc, o = sh(f'git apply {src}/_seed_patch.diff', wt); meta['patch_applies_to_head'] = rc == 0; meta['used_regenerated_patch'] = True
     e2 = dict(env, CARGO_TARGET_DIR=tmp + '/target')
     rc, o = sh('cargo test --workspace --no-fail-fast --offline 2>&1 | grep -E "^test result|FAILED|failed|^error" ', wt, e2)
     passed = sum(int(l.split()[3]) for l in o.split('\n') if l.startswith('test result'))
@@ -46,7 +46,8 @@ try:
     e3 = dict(os.environ, VERIF_REPO=wt, VERIF_NO_EVIDENCE='1', VERIF_CACHE='/var/tmp/nuverif-selftest-cache')
     for p in props:
         t0 = time.time()
-        q = subprocess.run(['python3', '/verif/tools/nv.py', 'check', p], capture_output=True, text=True, env=e3, cwd='/verif')
+        TR = os.environ.get('VERIF_TOOLS_ROOT', '/verif')   # a frozen snapshot of the tools while /verif is being edited
+        q = subprocess.run(['python3', TR + '/tools/nv.py', 'check', p], capture_output=True, text=True, env=e3, cwd=TR)
         v = [l for l in q.stdout.split('\n') if l.startswith('VIOLATION')]
         first = ''
         if v:
